@@ -46,14 +46,14 @@ def unhex (s : String) : Except String (List UInt8) := do
 def hexDigit (n : Nat) : Char := if n < 10 then Char.ofNat (48+n) else Char.ofNat (87+n)
 
 def hex (b : List UInt8) : String :=
-  String.mk (b.flatMap fun x => [hexDigit (x.toNat / 16), hexDigit (x.toNat % 16)])
+  String.ofList (b.flatMap fun x => [hexDigit (x.toNat / 16), hexDigit (x.toNat % 16)])
 
 def md5Of (b : List UInt8) : String := Md5.hex (ByteArray.mk b.toArray)
 
 def hexList (j : Json) (f : String) : Except String (List (List UInt8)) := do
   (← strList j f).mapM unhex
 
-def bits (l : List Bool) : String := String.mk (l.map fun b => if b then '1' else '0')
+def bits (l : List Bool) : String := String.ofList (l.map fun b => if b then '1' else '0')
 
 def opHashStream (j : Json) : Except String Json := do
   let name ← str j "name"
@@ -93,7 +93,7 @@ def jvalOf (j : Lean.Json) : Except String JVal :=
   | _ => throw "bad jval"
 
 def jvalTo : Json.JVal → Lean.Json
-  | .str s => .str (String.mk s)
+  | .str s => .str (String.ofList s)
   | .int n => .num n
   | .bool b => .bool b
   | .null => .null
@@ -106,12 +106,12 @@ def jobjOf (j : Lean.Json) : Except String Json.JObj := do
     | _ => throw "pair expected"
 
 def jobjTo (o : Json.JObj) : Lean.Json :=
-  Lean.Json.arr (o.map fun p => Lean.Json.arr #[.str (String.mk p.1), jvalTo p.2]).toArray
+  Lean.Json.arr (o.map fun p => Lean.Json.arr #[.str (String.ofList p.1), jvalTo p.2]).toArray
 
 def keyOf (j : Lean.Json) : Except String Path.Key := do
   (← j.getArr?).toList.mapM fun p => do pure (← p.getStr?).toList
 
-def keyTo (k : Path.Key) : Lean.Json := Lean.Json.arr (k.map fun p => Lean.Json.str (String.mk p)).toArray
+def keyTo (k : Path.Key) : Lean.Json := Lean.Json.arr (k.map fun p => Lean.Json.str (String.ofList p)).toArray
 
 def optStrOf (j : Lean.Json) (f : String) : Except String (Option (List Char)) :=
   match j.getObjVal? f with
@@ -140,7 +140,7 @@ def metaOf (j : Lean.Json) : Except String (Option MetaInfo.Meta) :=
                  md5 := ← optStrOf j "md5", inode := ← optNatOf j "inode", mtime := ← optNatOf j "mtime",
                  remote := ← optStrOf j "remote" })
 
-def optS (o : Option (List Char)) : Lean.Json := match o with | some s => .str (String.mk s) | none => .null
+def optS (o : Option (List Char)) : Lean.Json := match o with | some s => .str (String.ofList s) | none => .null
 def optN (o : Option Nat) : Lean.Json := match o with | some n => .num n | none => .null
 
 def metaTo : Option MetaInfo.Meta → Lean.Json
@@ -167,13 +167,13 @@ def treeOf (j : Lean.Json) : Except String Tree.Tree := do
 def treeTo (t : Tree.Tree) : Lean.Json :=
   Lean.Json.arr (t.map fun e => Lean.Json.mkObj [("key", keyTo e.1), ("meta", metaTo e.2.1), ("hi", hiTo e.2.2)]).toArray
 
-def md5Chars (cs : List Char) : List Char := (Md5.hex (String.mk cs).toUTF8).toList
+def md5Chars (cs : List Char) : List Char := (Md5.hex (String.ofList cs).toUTF8).toList
 
 def opTreeBytes (j : Lean.Json) : Except String Lean.Json := do
   let t ← treeOf (← j.getObjVal? "entries")
   let w := boolOf j "with_meta"
   let b := Tree.asBytes w t
-  pure (Lean.Json.mkObj [("bytes", String.mk b), ("oid", String.mk (Tree.digest md5Chars t)),
+  pure (Lean.Json.mkObj [("bytes", String.ofList b), ("oid", String.ofList (Tree.digest md5Chars t)),
     ("reparsed_ok", .bool (Json.parseList b == some ((Tree.asList w t).map Json.sortKeys)))])
 
 def opTreeFromList (j : Lean.Json) : Except String Lean.Json := do
@@ -193,19 +193,19 @@ def opSubtree (j : Lean.Json) : Except String Lean.Json := do
   let t ← treeOf (← j.getObjVal? "entries")
   let p ← keyOf (← j.getObjVal? "prefix")
   let st := Tree.subtree t p
-  pure (Lean.Json.mkObj [("tree", treeTo st), ("oid", String.mk (Tree.digest md5Chars st)),
+  pure (Lean.Json.mkObj [("tree", treeTo st), ("oid", String.ofList (Tree.digest md5Chars st)),
                          ("filter", treeTo (Tree.filter t p))])
 
 def opEscRange (j : Lean.Json) : Except String Lean.Json := do
   let lo ← nat j "lo"
   let hi ← nat j "hi"
   let cps := (List.range (hi - lo)).map (· + lo) |>.filter fun n => n < 55296 ∨ (57343 < n ∧ n < 1114112)
-  pure (Lean.Json.mkObj [("esc", Lean.Json.arr (cps.map fun n => Lean.Json.str (String.mk (Json.esc [Char.ofNat n]))).toArray)])
+  pure (Lean.Json.mkObj [("esc", Lean.Json.arr (cps.map fun n => Lean.Json.str (String.ofList (Json.esc [Char.ofNat n]))).toArray)])
 
 def opPath (j : Lean.Json) : Except String Lean.Json := do
   let ks ← (← arr j "keys").toList.mapM keyOf
   let ss ← strList j "strings"
-  pure (Lean.Json.mkObj [("joined", Lean.Json.arr (ks.map fun k => Lean.Json.str (String.mk (Path.joinC k))).toArray),
+  pure (Lean.Json.mkObj [("joined", Lean.Json.arr (ks.map fun k => Lean.Json.str (String.ofList (Path.joinC k))).toArray),
     ("split", Lean.Json.arr (ss.map fun s => keyTo (Path.splitC s.toList)).toArray)])
 
 def optB (o : Option Bool) : Lean.Json := match o with | some b => .bool b | none => .null
